@@ -660,6 +660,8 @@ func TestVerif_C12(t *testing.T) {
 		run.Count("stress_topology_client_universes", 1)
 		u.w.Close()
 	}
+	// "once per session": several sessions of ONE user refresh independently (round 6)
+	c12SessionsOfOneUser(run, u3[0], run.Env.Pick(6, 40))
 
 	// ---- C: sequential ages x behaviours x stores --------------------------------------------------------------
 	c12Sequential(run, t)
@@ -1090,5 +1092,125 @@ func c12Sequential(run *vfRun, t *testing.T) {
 				}
 			}
 		}
+	}
+}
+
+// c12SessionsOfOneUser (round 6): the refresh is owed once per SESSION, not once per user. Two or three sessions of the same
+// identity (laptop, phone: separate logins, separate tickets, separate rotating refresh tokens) are stale at the same time and
+// their requests overlap at a provider that takes 300 ms to answer; all on one instance (where any per-process coalescing would
+// sit) or spread over the replicas. Every session must get its own refresh (one successful grant per session), reach the
+// upstream with its own live token, and survive a second refresh cycle (a session that was handed another session's rotated
+// refresh token fails there, or kills the other session's token family).
+func c12SessionsOfOneUser(run *vfRun, u *c12Universe, rounds int) {
+	u.s.mu.Lock()
+	u.s.enabled = false
+	u.s.delay = nil
+	u.s.idpLag = 300 * time.Millisecond
+	u.s.mu.Unlock()
+	defer func() { u.s.mu.Lock(); u.s.idpLag = 0; u.s.mu.Unlock() }()
+	u.w.IdP.Set(func(c *vfIdPCfg) { c.RefreshFails, c.NoRefreshRotation, c.MintOverride = false, false, nil })
+	restale := func(p *vfProxy, b *vfBrowser) error {
+		req := httptest.NewRequest("GET", "/", nil)
+		req.Header.Set("Cookie", vfCookieHeader(b.Jar.For("proxy.test", "/", false)))
+		s, err := p.P.LoadCookiedSession(req)
+		if err != nil {
+			return err
+		}
+		old := time.Now().Add(-10 * time.Minute)
+		s.CreatedAt = &old
+		rw := httptest.NewRecorder()
+		if err := p.P.SaveSession(rw, req, s); err != nil {
+			return err
+		}
+		b.Jar.Apply("proxy.test", "/", rw.Header().Values("Set-Cookie"))
+		return nil
+	}
+	for k := 0; k < rounds; k++ {
+		u.mr.FlushAll()
+		nSess := 2 + k%2
+		oneInstance := k%4 < 2
+		id := vfIdentity{Sub: fmt.Sprintf("u-c12-multi-%d", k), Email: "multi@example.com", Groups: []string{"g"}}
+		var bs []*vfBrowser
+		ok := true
+		for i := 0; i < nSess; i++ {
+			b := vfNewBrowser("")
+			if _, _, err := b.Login(u.p[0], id, "/"); err != nil || restale(u.p[0], b) != nil {
+				ok = false
+				break
+			}
+			bs = append(bs, b)
+		}
+		if !ok {
+			run.Inconclusive("rig: sessions-of-one-user setup")
+			continue
+		}
+		_, g0 := u.w.IdP.RefreshGrants()
+		resps := make([]*vfResp, nSess)
+		ids := make([]string, nSess)
+		var wg sync.WaitGroup
+		for i := range bs {
+			ids[i] = fmt.Sprintf("c12m-%d-%d-%s", k, i, vfRandHex(3))
+			wg.Add(1)
+			go func(i int) {
+				defer wg.Done()
+				inst := 0
+				if !oneInstance {
+					inst = i % u.n
+				}
+				resps[i] = bs[i].Get(u.p[inst], "/x", "X-Vf-Id", ids[i])
+			}(i)
+		}
+		wg.Wait()
+		_, g1 := u.w.IdP.RefreshGrants()
+		toks := make([]string, nSess)
+		codes := make([]int, nSess)
+		states := make([]string, nSess)
+		distinct := map[string]bool{}
+		for i := range bs {
+			codes[i] = resps[i].Code
+			for _, h := range u.w.Up.FindHit(ids[i]) {
+				toks[i] = h.Header.Get("X-Forwarded-Access-Token")
+			}
+			if toks[i] != "" {
+				states[i] = u.w.IdP.ATState(toks[i])
+				distinct[toks[i]] = true
+			}
+		}
+		run.Eval(fmt.Sprintf("sessions-of-one-user|sessions=%d|one-instance=%v", nSess, oneInstance))
+		run.Count("sessions_of_one_user_rounds", 1)
+		detail := map[string]interface{}{"flags": u.flags, "sessions": nSess, "one_instance": oneInstance, "status": codes, "token_states": states, "successful_grants": g1 - g0, "provider_latency": "300ms"}
+		bad := g1-g0 != nSess || len(distinct) != nSess
+		for i := range bs {
+			if codes[i] != 200 || states[i] != "live" {
+				bad = true
+			}
+		}
+		if bad {
+			run.Violation("c12:sessions-of-one-user-not-refreshed-independently", fmt.Sprintf("%d stale sessions of one user, overlapping requests (one instance: %v): %d successful refresh grants, %d distinct tokens upstream, status %v, token states %v (want one grant, one own live token per session)",
+				nSess, oneInstance, g1-g0, len(distinct), codes, states), detail)
+			u.w.Up.Reset()
+			continue
+		}
+		// second cycle, one session after the other
+		for i, b := range bs {
+			if err := restale(u.p[0], b); err != nil {
+				run.Violation("c12:sessions-of-one-user-not-refreshed-independently", fmt.Sprintf("session %d of %d of one user no longer loads after the overlapping refreshes: %v", i, nSess, err), detail)
+				break
+			}
+			_, a0 := u.w.IdP.RefreshGrants()
+			uid := ids[i] + "-2"
+			r := b.Get(u.p[0], "/x", "X-Vf-Id", uid)
+			_, a1 := u.w.IdP.RefreshGrants()
+			tok := ""
+			for _, h := range u.w.Up.FindHit(uid) {
+				tok = h.Header.Get("X-Forwarded-Access-Token")
+			}
+			if r.Code != 200 || a1-a0 != 1 || tok == "" || u.w.IdP.ATState(tok) != "live" {
+				detail["second_cycle"] = map[string]interface{}{"session": i, "status": r.Code, "successful_grants": a1 - a0, "token_state": u.w.IdP.ATState(tok)}
+				run.Violation("c12:sessions-of-one-user-not-refreshed-independently", fmt.Sprintf("second refresh cycle of session %d of %d of one user: status %d, %d successful grants, token state %q (want 200, 1, live) — it holds a refresh token that is not its own", i, nSess, r.Code, a1-a0, u.w.IdP.ATState(tok)), detail)
+				break
+			}
+		}
+		u.w.Up.Reset()
 	}
 }
